@@ -314,6 +314,8 @@ default_L_stream = lambda: Stream("depth-default-L", "loadpost", default_L_cases
 PROPS["C02"].streams.append(default_L_stream())
 PROPS["C19"].streams.append(default_L_stream())
 PROPS["C03"].streams.append(default_L_stream())
+PROPS["C19"].streams.append(Stream("thr-depth", "thr", histgen.depth_thr_cases, args=(LDEF, CAP), flavours=("tsan", "rel"), nontrivial=lambda c, l: True, timeout=900,
+                                   rule="4..16 threads at once, each decoding / copying / serializing / releasing nested items (1..40 levels, every container kind) of its own, under ThreadSanitizer and in the release build: the nesting budget and the decoding stack are per call (any shared counter is a reported race or a spurious MEMERROR)"))
 PROPS["C07"].streams.append(default_L_stream())
 PROPS["C04"].streams.append(Stream("limit-load", "hist", histgen.limit_load_cases(3), args=(3, CAP, "none", 0), flavours=("rel",), L=3, timeout=600,
                                    nontrivial=lambda c, l: True, rule="library rebuilt with CBOR_MAX_STACK_SIZE=3: cbor_load of inputs nested L-1 .. L+2 deep inside an API history: live blocks and allocator trace (a record leaked at the limit shows as a live block)"))
